@@ -90,6 +90,7 @@ func (c *ClusterInfo) snapshotQueueResourceUsage() (*queue_info.ClusterUsage, er
 func UpdateQueueHierarchy(queues map[common_info.QueueID]*queue_info.QueueInfo) {
 	updateQueueChildren(queues)
 	cleanQueueOrphans(queues)
+	cleanQueueCycles(queues)
 }
 
 func updateQueueChildren(queues map[common_info.QueueID]*queue_info.QueueInfo) {
@@ -112,6 +113,35 @@ func cleanQueueOrphans(queues map[common_info.QueueID]*queue_info.QueueInfo) {
 			}
 		}
 	}
+}
+
+// cleanQueueCycles removes every queue whose parent chain never reaches a top-level queue (a parent cycle, or a
+// queue below one). Such queues cannot be scheduled and would make every walk up the hierarchy loop forever.
+func cleanQueueCycles(queues map[common_info.QueueID]*queue_info.QueueInfo) {
+	var unrooted []common_info.QueueID
+	for queueId := range queues {
+		if !queueReachesRoot(queues, queueId) {
+			unrooted = append(unrooted, queueId)
+		}
+	}
+	for _, queueId := range unrooted {
+		log.InfraLogger.V(2).Warnf("Found queue %s whose parent chain is cyclic, deleting it", queueId)
+		delete(queues, queueId)
+	}
+}
+
+func queueReachesRoot(queues map[common_info.QueueID]*queue_info.QueueInfo, queueID common_info.QueueID) bool {
+	for steps := 0; steps <= len(queues); steps++ {
+		queue, found := queues[queueID]
+		if !found {
+			return false
+		}
+		if queue.ParentQueue == "" {
+			return true
+		}
+		queueID = queue.ParentQueue
+	}
+	return false
 }
 
 func deleteQueueAndChildren(queues map[common_info.QueueID]*queue_info.QueueInfo, queueID common_info.QueueID) {
